@@ -1,6 +1,13 @@
 package tubes
 
-import "encoding/binary"
+import (
+	"encoding/binary"
+	"errors"
+)
+
+// errMalformedFrame is returned for a datagram too short for its header or for
+// the data length it declares.
+var errMalformedFrame = errors.New("malformed frame")
 
 type frame struct {
 	ackNo      uint32
@@ -117,7 +124,22 @@ func (p *frame) toBytes() []byte {
 }
 
 func fromBytes(b []byte) (*frame, error) {
+	if len(b) < 10 {
+		return nil, errMalformedFrame
+	}
+	if len(b) < 12 {
+		// Initiation frames (REQ/RESP) have a 10-byte header.
+		if flags := metaToFlags(b[1]); !flags.REQ && !flags.RESP {
+			return nil, errMalformedFrame
+		}
+		var padded [12]byte
+		copy(padded[:], b)
+		b = padded[:]
+	}
 	dataLength := binary.BigEndian.Uint16(b[2:4])
+	if len(b) < 12+int(dataLength) {
+		return nil, errMalformedFrame
+	}
 	return &frame{
 		tubeID:     b[0],
 		flags:      metaToFlags(b[1]),
